@@ -2225,6 +2225,14 @@ def pattern_neg_16(context, tree, c0):
     return d
 
 
+@isa.pattern("reg8", "NEGI8(reg8)", size=11)
+@isa.pattern("reg8", "NEGU8(reg8)", size=11)
+def pattern_neg_8(context, tree, c0):
+    """8 bits negation, calculated in 32 bits"""
+    a = pattern_i8toi32(context, tree, c0)
+    return pattern_i32toi8(context, tree, pattern_neg_32(context, tree, a))
+
+
 @isa.pattern("reg64", "INVI64(reg64)", size=3)
 @isa.pattern("reg64", "INVU64(reg64)", size=3)
 def pattern_inv64(context, tree, c0):
@@ -2250,6 +2258,14 @@ def pattern_inv_16(context, tree, c0):
     context.move(d, c0)
     context.emit(bits16.NotRm(RmReg16(d)))
     return d
+
+
+@isa.pattern("reg8", "INVI8(reg8)", size=11)
+@isa.pattern("reg8", "INVU8(reg8)", size=11)
+def pattern_inv_8(context, tree, c0):
+    """8 bits inversion, calculated in 32 bits"""
+    a = pattern_i8toi32(context, tree, c0)
+    return pattern_i32toi8(context, tree, pattern_inv_32(context, tree, a))
 
 
 @isa.pattern("reg64", "REGI64", size=0)
